@@ -1,4 +1,5 @@
 import Gmx.Lemmas.OraclePrice
+import Gmx.Props.C29
 /-!
 # C24 — only fresh, well-formed, in-band oracle prices are used
 -/
@@ -126,8 +127,8 @@ theorem accepted_in_band_partial {U f : Nat} {v v' : Validator} {cfg : FeedCfg} 
           · simp [c1, c2] at hc
           · exact ⟨d.unit, w2, w3, by omega, by omega⟩
 
-/-- if the configured deviation is at least one precision step … the literal band holds up to
-less than one step: `|price − r| < dev + step`. -/
+/-- whenever the floored deviation is positive the literal band holds up to less than one precision
+step (of `max`'s multiplier, for both bounds): `|price − ref| < dev + step` (F-C24b slack). -/
 theorem accepted_in_band_within_step {U f : Nat} {v v' : Validator} {cfg : FeedCfg} {ots : Int} {slot : Nat}
     {p : Price} {ref : Option Dec} (hf : cfg.devFactor = some f)
     (h : validateOne U v cfg ots slot p ref = .ok v') :
@@ -445,5 +446,181 @@ example : ((994 : Int) - (0 : Nat)) - (990 - (1 : Nat)) ≤ (5 : Nat) :=
                prices := [(2, ⟨⟨3, 0⟩, ⟨4, 0⟩⟩), (1, ⟨⟨995, 2⟩, ⟨1005, 2⟩⟩)] }) (by rfl)).2
     { token := 2, enabled := true, expectedProvider := 3, provider := 3, feedMatches := true, allowAdjust := true, cfg := { found := true, adjustment := 0, devFactor := none }, oracleTs := 994, slot := 5, price := ⟨⟨3, 0⟩, ⟨4, 0⟩⟩, ref := none } (List.mem_cons_of_mem _ List.mem_cons_self) { token := 1, enabled := true, expectedProvider := 2, provider := 2, feedMatches := true, allowAdjust := false, cfg := { found := true, adjustment := 1, devFactor := some (10 ^ 18) }, oracleTs := 990, slot := 7, price := ⟨⟨995, 2⟩, ⟨1005, 2⟩⟩, ref := some ⟨1000, 2⟩ } List.mem_cons_self
 
+
+/-- a token without a feed config for the feed's provider never gets a price either
+(`NotFound`). -/
+theorem missing_feed_config_rejected {U : Nat} {o : Oracle} {v : Validator} {fd : Feed}
+    (h : fd.cfg.found = false) : ∃ e, setOne U (o, v) fd = .error e := by
+  cases hs : setOne U (o, v) fd with
+  | error e => exact ⟨e, rfl⟩
+  | ok ov =>
+    obtain ⟨o', v'⟩ := ov
+    obtain ⟨_, _, _, hv, _, _⟩ := setOne_ok hs
+    obtain ⟨hf, _⟩ := validateOne_ok hv
+    simp [h] at hf
+
+/-! ### round 4: the full-strength batch clause (fresh ∧ in range ∧ expected provider/feed ∧ in band ∧
+well formed, for EVERY accepted price), and the `getD` fallback of `maybeAdjust` -/
+
+/-- what a passed deviation check means for the price that was checked. -/
+theorem checkDeviation_ok_band {U f : Nat} {p : Price} {ref : Option Dec} {b : Bool}
+    (hc : checkDeviation U f p ref = .ok b) :
+    ∃ r dev, refUnit p ref = some r ∧ applyFactor 128 U r f = some dev ∧
+      (0 < dev → absDiff p.max.unit r < dev + 10 ^ p.max.mult ∧ absDiff p.min.unit r < dev + 10 ^ p.max.mult) := by
+  unfold checkDeviation at hc
+  cases hr : refUnit p ref with
+  | none => simp [hr] at hc
+  | some r =>
+    cases hd : applyFactor 128 U r f with
+    | none => simp [hr, hd] at hc
+    | some dev =>
+      refine ⟨r, dev, rfl, hd, ?_⟩
+      intro hpos
+      simp only [hr, hd, hpos, gt_iff_lt, if_true] at hc
+      cases hw : p.max.withUnit dev true with
+      | none => simp [hw] at hc
+      | some d =>
+        obtain ⟨_, w2, w3, _⟩ := withUnit_ceil hw
+        simp only [hw] at hc
+        by_cases c1 : d.unit < absDiff p.max.unit r
+        · simp [c1] at hc
+        · by_cases c2 : d.unit < absDiff p.min.unit r
+          · simp [c1, c2] at hc
+          · constructor <;> omega
+
+/-- the loop passes every feed's (possibly adjusted) price through the deviation check of its
+own configured factor. -/
+theorem setLoop_each_deviation {U : Nat} : ∀ (feeds : List Feed) (o o' : Oracle) (v v' : Validator),
+    setLoop U (o, v) feeds = .ok (o', v') →
+    ∀ fd ∈ feeds, ∀ f, fd.cfg.devFactor = some f →
+      ∃ b, checkDeviation U f (maybeAdjust U fd) fd.ref = .ok b
+  | [], _, _, _, _, _ => by intro fd hfd; cases hfd
+  | fd :: rest, o, o', v, v', h => by
+    simp only [setLoop] at h
+    cases hs : setOne U (o, v) fd with
+    | error e => simp [hs] at h
+    | ok ov =>
+      obtain ⟨o1, v1⟩ := ov
+      simp only [hs] at h
+      obtain ⟨_, _, _, hv, _, _⟩ := setOne_ok hs
+      obtain ⟨_, _, _, hdev, _⟩ := validateOne_ok hv
+      have ih := setLoop_each_deviation rest o1 o' v1 v' h
+      intro x hx
+      rcases List.mem_cons.1 hx with rfl | hx
+      · exact hdev
+      · exact ih x hx
+
+/-- every price in the map after the loop was there before or is the validated price of a feed. -/
+theorem setLoop_prices_from_feeds {U : Nat} : ∀ (feeds : List Feed) (o o' : Oracle) (v v' : Validator),
+    setLoop U (o, v) feeds = .ok (o', v') →
+    ∀ tp ∈ o'.prices, tp ∈ o.prices ∨ ∃ fd ∈ feeds, tp = (fd.token, maybeAdjust U fd)
+  | [], o, o', v, v', h => by
+    simp [setLoop] at h; obtain ⟨rfl, _⟩ := h; intro tp htp; exact Or.inl htp
+  | fd :: rest, o, o', v, v', h => by
+    simp only [setLoop] at h
+    cases hs : setOne U (o, v) fd with
+    | error e => simp [hs] at h
+    | ok ov =>
+      obtain ⟨o1, v1⟩ := ov
+      simp only [hs] at h
+      obtain ⟨_, _, _, _, _, hp⟩ := setOne_ok hs
+      intro tp htp
+      rcases setLoop_prices_from_feeds rest o1 o' v1 v' h tp htp with h1 | ⟨x, hx, e⟩
+      · rw [hp] at h1
+        simp only [List.mem_cons, List.mem_filter] at h1
+        rcases h1 with rfl | ⟨hm, _⟩
+        · exact Or.inr ⟨fd, List.mem_cons_self, rfl⟩
+        · exact Or.inl hm
+      · exact Or.inr ⟨x, List.mem_cons_of_mem _ hx, e⟩
+
+/-- with adjustment allowed and a factor configured, `maybeAdjust` IS C29's `adjusted` (including
+the `getD` fallback to the delivered price when the adjuster returns `None`). -/
+theorem maybeAdjust_eq_adjusted {U f : Nat} {fd : Feed} (ha : fd.allowAdjust = true)
+    (hf : fd.cfg.devFactor = some f) : maybeAdjust U fd = C29.adjusted U f fd.price fd.ref := by
+  simp [maybeAdjust, C29.adjusted, ha, hf]
+
+/-- FULL-STRENGTH batch clause. After a successful `set_prices_from_remaining_accounts`, for EVERY
+token of the batch: the token was enabled, the feed came from the expected provider with the
+configured feed id and a feed config; the validated price `p' = maybeAdjust fd` is well formed
+(`0 < min ≤ max`, one multiplier); it is no older than `max_age` after the per-feed timestamp
+adjustment and not further than `max_future` ahead; if a deviation factor is configured `p'` passed
+the deviation check of that factor (reference = explicit or its own mid; `< dev + one precision
+step`, skipped at `dev = 0`: F-C24a/b); and if adjustment is allowed the pair (delivered price,
+reference) is `C29.Accepted`, so `C29.e2e_accepted_in_band` / `e2e_dev_zero_equals_reference`
+bound it against the DELIVERED price's reference whether the adjuster rewrote it, left it alone
+or failed (`getD` fallback). Any two accepted adjusted timestamps are within
+`max_oracle_timestamp_range`, and the price map holds exactly validated prices of the batch. -/
+theorem accepted_batch_full {U : Nat} {o o' : Oracle} {v : Validator} {feeds : List Feed}
+    (h : setPrices U o v feeds = .ok o') :
+    (∀ fd ∈ feeds,
+      fd.enabled = true ∧ fd.expectedProvider = fd.provider ∧ fd.feedMatches = true ∧ fd.cfg.found = true ∧
+      (0 < (maybeAdjust U fd).min.unit ∧ (maybeAdjust U fd).min.unit ≤ (maybeAdjust U fd).max.unit ∧
+        (maybeAdjust U fd).min.mult = (maybeAdjust U fd).max.mult) ∧
+      v.now ≤ fd.oracleTs - fd.cfg.adjustment + v.maxAge ∧ fd.oracleTs ≤ v.now + v.maxFuture ∧
+      (∀ f, fd.cfg.devFactor = some f →
+        (∃ r dev, refUnit (maybeAdjust U fd) fd.ref = some r ∧ applyFactor 128 U r f = some dev ∧
+          (0 < dev → absDiff (maybeAdjust U fd).max.unit r < dev + 10 ^ (maybeAdjust U fd).max.mult ∧
+                     absDiff (maybeAdjust U fd).min.unit r < dev + 10 ^ (maybeAdjust U fd).max.mult)) ∧
+        (fd.allowAdjust = true → C29.Accepted U f fd.price fd.ref))) ∧
+    (∀ a ∈ feeds, ∀ b ∈ feeds,
+      (a.oracleTs - a.cfg.adjustment) - (b.oracleTs - b.cfg.adjustment) ≤ v.maxRange) ∧
+    (∀ tp ∈ o'.prices, ∃ fd ∈ feeds, tp = (fd.token, maybeAdjust U fd)) := by
+  obtain ⟨hcl, hempty, _, hall⟩ := accepted_batch_each_fresh h
+  obtain ⟨_, hrange⟩ := accepted_batch h
+  -- recover the loop result
+  have hloop : ∃ o1 v1, setLoop U (o, v) feeds = .ok (o1, v1) ∧ o'.prices = o1.prices := by
+    unfold setPrices at h
+    have he : o.prices.isEmpty = true := by simp [hempty]
+    simp only [hcl, he, Bool.not_true, Bool.false_eq_true, if_false] at h
+    by_cases hl : feeds.length > 512
+    · simp [hl] at h
+    · simp only [hl, if_false] at h
+      cases hs : setLoop U (o, v) feeds with
+      | error e => simp [hs] at h
+      | ok ov =>
+        obtain ⟨o1, v1⟩ := ov
+        simp only [hs] at h
+        refine ⟨o1, v1, rfl, ?_⟩
+        unfold updateTsAndSlot at h
+        cases hfin : finish (mergeRange v1 (if o1.cleared = true then none else some o1.minSlot) o1.minTs o1.maxTs) with
+        | error e => simp [hfin] at h
+        | ok res =>
+          simp only [hfin] at h
+          cases res with
+          | none => simp at h; rw [← h]
+          | some t => obtain ⟨s, mn, mx⟩ := t; simp at h; rw [← h]
+  obtain ⟨o1, v1, hs, hp⟩ := hloop
+  refine ⟨?_, hrange, ?_⟩
+  · intro fd hfd
+    obtain ⟨a1, a2, a3, a4, a5, a6, a7⟩ := hall fd hfd
+    refine ⟨a1, a2, a3, a4, accepted_wellformed a5, a6, a7, ?_⟩
+    intro f hf
+    obtain ⟨b, hc⟩ := setLoop_each_deviation feeds o o1 v v1 hs fd hfd f hf
+    refine ⟨checkDeviation_ok_band hc, ?_⟩
+    intro ha
+    have e := maybeAdjust_eq_adjusted (U := U) ha hf
+    exact ⟨⟨b, by rw [← e]; exact hc⟩, by rw [← e]; exact a5⟩
+  · intro tp htp
+    rw [hp] at htp
+    rcases setLoop_prices_from_feeds feeds o o1 v v1 hs tp htp with h1 | h2
+    · rw [hempty] at h1; cases h1
+    · exact h2
+
+/-- the `getD` fallback inside C24, spelled out through C29: for a token with adjustment allowed in
+an accepted batch, the price that was stored is in band w.r.t. the reference of the price AS
+DELIVERED — exactly when the adjuster rewrote it, within one precision step when it was left
+alone, and (configurable factors, `U = 10^20`) equal to the reference when the floored deviation
+is 0; an adjuster failure (`None`) never lets an out-of-band price through. -/
+theorem accepted_batch_adjusted_in_band {o o' : Oracle} {v : Validator} {feeds : List Feed} {fd : Feed} {f : Nat}
+    (h : setPrices (10 ^ 20) o v feeds = .ok o') (hfd : fd ∈ feeds) (ha : fd.allowAdjust = true)
+    (hf : fd.cfg.devFactor = some f) :
+    C29.Accepted (10 ^ 20) f fd.price fd.ref ∧
+    (∀ r, 10 ^ 12 ≤ f → refUnit fd.price fd.ref = some r → applyFactor 128 (10 ^ 20) r f = some 0 →
+      (maybeAdjust (10 ^ 20) fd).min.unit = r ∧ (maybeAdjust (10 ^ 20) fd).max.unit = r) := by
+  have hacc := ((accepted_batch_full h).1 fd hfd).2.2.2.2.2.2.2 f hf |>.2 ha
+  refine ⟨hacc, ?_⟩
+  intro r h12 hr hd
+  rw [maybeAdjust_eq_adjusted (U := 10 ^ 20) ha hf]
+  exact C29.e2e_dev_zero_equals_reference h12 hr hd hacc
 
 end Gmx.C24
